@@ -97,9 +97,11 @@ uint32_t COTmrGetTicks(CO_TMR *tmr, uint16_t time, uint32_t unit)
         ticks = 0u;
     } else {
         if (freq <= unit) {
-            ticks = (uint32_t)time / (unit / freq);
+            /* time * freq cannot overflow: freq <= unit <= 10000 */
+            ticks = ((uint32_t)time * freq) / unit;
         } else {
-            ticks = (uint32_t)time * (freq / unit);
+            ticks = ((uint32_t)time * (freq / unit)) +
+                    (((uint32_t)time * (freq % unit)) / unit);
         }
     }
     return (ticks);
@@ -114,7 +116,7 @@ uint16_t COTmrGetMinTime(CO_TMR *tmr, uint32_t unit)
         time = 0u;
     } else {
         if (freq <= unit) {
-            time = (uint16_t)(unit / freq);
+            time = (uint16_t)((unit + (freq - 1u)) / freq);
         }
     }
     return (time);
